@@ -23,6 +23,9 @@ type c20Case struct {
 	Test    model.TestSpec `json:"test"`
 	Subject model.Val      `json:"subject"` // typed exactly like the destination
 	Mode    string         `json:"mode"`
+	// ElemFails: every element additionally violates a test of its own (string elements: Len(99)): a test's verdict does
+	// not depend on what other nodes of the same execution report
+	ElemFails bool `json:"elemFails,omitempty"`
 }
 
 func (c c20Case) toCase() model.Case {
@@ -32,6 +35,9 @@ func (c c20Case) toCase() model.Case {
 			n.Elem = &model.Node{Kind: model.KPtr, Elem: &model.Node{Kind: strings.TrimPrefix(c.Elem, "ptr:")}}
 		} else {
 			n.Elem = &model.Node{Kind: c.Elem}
+		}
+		if c.ElemFails && c.Elem == model.KString {
+			n.Elem.Tests = []model.TestSpec{{Name: "len", N: 99}}
 		}
 	}
 	// an absent-looking subject is supplied through Default, which "is then tested like any other value"
@@ -93,7 +99,7 @@ var modes = []string{"parse", "validate"}
 
 func TestC20(t *testing.T) {
 	h := hh.Start(t, "C20",
-		"single-test schemas; exhaustive sweeps: ContainsUpper/Digit/Special (and their Not forms) over every rune U+0000..U+02FF plus class-edge pairs; string Min/Max/Len for n in 0..6 over subjects of byte length 0..8 incl. multi-byte runes; numeric GT/GTE/LT/LTE/EQ over all pairs of per-width boundary sets incl. NaN/Inf/-0; slice Min/Max/Len/Contains (incl. pointer elements with pointer needles); the same tests on user-defined named types (StringSchema[T], NumberSchema[T], BoolSchema[T]) with Required on and off; time After/Before/EQ over {t-1ns,t,t+1ns} x zones and over all pairs of eleven instants from year 1 to 9999 (incl. both ends of the int64-nanosecond range); random: OneOf/Contains/HasPrefix/HasSuffix/Match; grammar classes: Email (WHATWG recogniser, generated members and single-edit near misses), UUID (8-4-4-4-12 hex, single edits), URL (only strings certainly with/without scheme+host; every combination of port, path, query and fragment after the authority). Non-trivial = subject within one unit of the parameter, a class-edge or multi-byte rune, a generated grammar member or near miss; every enumerated cell counts once",
+		"single-test schemas; exhaustive sweeps: ContainsUpper/Digit/Special (and their Not forms) over every rune U+0000..U+02FF plus class-edge pairs; string Min/Max/Len for n in 0..6 over subjects of byte length 0..8 incl. multi-byte runes; numeric GT/GTE/LT/LTE/EQ over all pairs of per-width boundary sets incl. NaN/Inf/-0; slice Min/Max/Len/Contains (incl. pointer elements with pointer needles, and with elements that fail a test of their own); the same tests on user-defined named types (StringSchema[T], NumberSchema[T], BoolSchema[T]) with Required on and off; time After/Before/EQ over {t-1ns,t,t+1ns} x zones and over all pairs of eleven instants from year 1 to 9999 (incl. both ends of the int64-nanosecond range); random: OneOf/Contains/HasPrefix/HasSuffix/Match; grammar classes: Email (WHATWG recogniser, generated members and single-edit near misses), UUID (8-4-4-4-12 hex, single edits), URL (only strings certainly with/without scheme+host; every combination of port, path, query and fragment after the authority). Non-trivial = subject within one unit of the parameter, a class-edge or multi-byte rune, a generated grammar member or near miss; every enumerated cell counts once",
 		"issue present iff the reference predicate is false, in Parse and Validate; absent-looking subjects are supplied through Default (which the statement says is tested like any other value)",
 		"UUID version nibble and URL strings outside the certain classes are not asserted either way")
 	defer h.Finish()
@@ -211,6 +217,9 @@ func TestC20(t *testing.T) {
 				for k := 0; k <= 6; k++ {
 					for _, mode := range modes {
 						yield(c20Case{Kind: model.KSlice, Elem: model.KString, Test: model.TestSpec{Name: name, N: n}, Subject: mk(k), Mode: mode})
+						if k > 0 {
+							yield(c20Case{Kind: model.KSlice, Elem: model.KString, Test: model.TestSpec{Name: name, N: n}, Subject: mk(k), Mode: mode, ElemFails: true})
+						}
 					}
 				}
 			}
@@ -220,6 +229,9 @@ func TestC20(t *testing.T) {
 				for _, mode := range modes {
 					arg := model.Str(needle)
 					yield(c20Case{Kind: model.KSlice, Elem: model.KString, Test: model.TestSpec{Name: "contains", Arg: &arg}, Subject: mk(k), Mode: mode})
+					if k > 0 {
+						yield(c20Case{Kind: model.KSlice, Elem: model.KString, Test: model.TestSpec{Name: "contains", Arg: &arg}, Subject: mk(k), Mode: mode, ElemFails: true})
+					}
 				}
 			}
 		}
